@@ -3,7 +3,7 @@ from __future__ import annotations
 
 import z3
 
-from .types import BOOL, INT, REAL, STR, Atom, Enum, MapT, ObjT, Opt, OpaqueT, Record, SeqT, SetT, TupleT, Ty
+from .types import BOOL, DATETIME, INT, REAL, STR, Atom, Enum, MapT, ObjT, Opt, OpaqueT, Record, SeqT, SetT, TupleT, Ty
 from .values import NONE, ExcVal, ListVal, NoneVal, ObjRef, TupleVal, Val, boolval, fresh_name, mk_fresh, FuncVal, BoundMeth, GenVal, Native
 
 
@@ -34,6 +34,8 @@ def truthy(v) -> object:
         return t != 0
     if ty == STR:
         return z3.Length(t) > 0
+    if ty == DATETIME:
+        return z3.BoolVal(True)
     if isinstance(ty, (Atom, Record, Enum)):
         # StrEnum members of the repo are all non-empty strings; atoms are non-empty ids by type invariant
         return z3.BoolVal(True)
@@ -106,6 +108,8 @@ def coerce(v, ty: Ty):
         return Val(ty.some(coerce(v, ty.inner).term), ty)
     if ty == REAL and v.ty == INT:
         return Val(z3.ToReal(v.term), REAL)
+    if ty == DATETIME and v.ty == REAL or ty == REAL and v.ty == DATETIME:
+        return Val(v.term, ty)
     if isinstance(ty, MapT) and isinstance(v.ty, MapT) and ty.plain() == v.ty.plain():
         return Val(v.term, ty)
     if isinstance(ty, SetT) and isinstance(v.ty, SeqT) and ty.elem == v.ty.elem:
@@ -230,3 +234,22 @@ def card(set_term, elem_sort):
     if key not in _card_funcs:
         _card_funcs[key] = z3.Function("card_" + key, z3.ArraySort(elem_sort, z3.BoolSort()), z3.IntSort())
     return _card_funcs[key](set_term)
+
+
+_fmod = None
+
+
+def fmod(x, y):
+    """Python float `%` under real semantics: an uninterpreted function whose defining facts
+    (x = k*y + fmod(x,y), 0 <= fmod(x,y) < y for y > 0) are added at each use."""
+    global _fmod
+    if _fmod is None:
+        _fmod = z3.Function("fmod", z3.RealSort(), z3.RealSort(), z3.RealSort())
+    return _fmod(x, y)
+
+
+def fmod_facts(x, y):
+    k = z3.Int(fresh_name("modk"))
+    r = fmod(x, y)
+    return z3.And(z3.Implies(y > 0, z3.And(x == z3.ToReal(k) * y + r, r >= 0, r < y)),
+                  z3.Implies(y < 0, z3.And(x == z3.ToReal(k) * y + r, r <= 0, r > y)))
